@@ -21,6 +21,26 @@ CHECKS = {
    "Refused <=> the reference finds a symbol that is neither token nor defined, or an unproductive nonterminal; refusal must be a diagnostic (not a runtime error) and, for unproductivity, name exactly the unproductive nonterminals; every usable grammar must be processed within the fuel budget.",
    "Trusted: reference fixpoints. The 2000-state limit is not exercised (no grammar of the classes comes near it).",
    "3/C12"),
+ "C01": ("model_checking",
+   "explicit-state exploration (prefix-shared DFS over all token strings up to depth k) of the LR machine defined by yaccgo's own dense and packed tables for every grammar of bounded classes; every reduction checked on a plain symbol stack (derivation checker) and every accept against an Earley recognizer; model runs replayed on compiled generated parsers",
+   "Every configuration reachable on every token string up to the bound, for every usable grammar of the classes (conflicting ones included: their conflicts were resolved by default rules): reductions read backwards must be a rightmost derivation of exactly the input. The abstract driver has the generated driver's control flow and is bound to the generated Go/TypeScript code by replaying all its runs on the conformance corpus.",
+   "Trusted: derivation checker, Earley recognizer, the abstract driver (bound by conformance replays). Bounds: depth 5/6 tokens, grammars up to 4 rules.",
+   "3/C01"),
+ "C02": ("model_checking",
+   "same explicit-state exploration restricted to grammars the reference classifies conflict-free LALR(1); oracle: every Earley-viable next token must be shifted/accepted",
+   "For every LALR(1) grammar of the classes (classification by the reference, never yaccgo's own opinion) and every viable prefix up to the bound, on dense and packed tables and on generated parsers.",
+   "Trusted: reference LALR(1) classification (LR(1) merge), Earley recognizer. Bounds as C01.",
+   "3/C02"),
+ "C05": ("exploration",
+   "exhaustive enumeration: every small integer matrix through utils.PackTable/UnPackTable; every (state, symbol) cell of every grammar of the bounded classes through a transliteration of the generated packed Action() vs the dense table, under canonical and reversed map order; packed vs -u generated parsers on the conformance corpus",
+   "Lookup through the packed arrays with default-action and default-goto vectors must return exactly the dense cell, for all cells of all grammars of the classes and all matrices of the stated shapes.",
+   "Trusted: the transliteration of Action() (bound to generated code by the Action() dump in the conformance phase).",
+   "3/C05"),
+ "C06": ("model_checking",
+   "same explicit-state exploration with an extra unknown-token input symbol; oracle: non-accepting runs end in the documented error outcome (never index error / garbage action); on conflict-free grammars the first non-viable token (Earley) is rejected unshifted after finitely many reductions; outcome class and fetch count replayed on generated parsers",
+   "All grammars x all strings up to the bound including an unknown token code: rejected means the documented channel; for LALR(1) grammars rejection happens exactly at the first token that cannot continue any sentence.",
+   "Trusted: Earley viable-prefix oracle; abstract driver bound by conformance replays. Reduction loops of conflicting (e.g. cyclic) grammars are counted, not judged.",
+   "3/C06"),
 }
 
 PENDING = {}
